@@ -343,3 +343,26 @@ Example C01_bytes_example :
   lex rt_txt = (tokens_of rt_tree, false) /\
   CodecDec.decode_bytes inst_orc rt_env [82] rt_txt = Ok rt_msg.
 Proof. split; [vm_compute; reflexivity|]. split; vm_compute; reflexivity. Qed.
+
+(* the oracle instance of C01_dec_premises_satisfiable at work: a message with a float64, a timestamp,
+   a decimal and bytes, encoded with inst_fmt and read back by the decoder family's byte-level model
+   with inst_orc (the float comes back as the same bit pattern, the timestamp through the RFC 3339 reader,
+   the decimal as its normalised text) *)
+Definition sc_env : env :=
+  [([82], SObject [mkProp [102] [1] false false [] (FScalar KFloat64);
+                   mkProp [116] [2] false true [] (FScalar KTimestamp);
+                   mkProp [100] [3] false true [] (FScalar KDecimal);
+                   mkProp [98] [4] false false [] (FScalar KBytes)])].
+Definition sc_msg : msg :=
+  [(1, VFloat 4609434218613702656); (2, mk_timestamp 1709251199 120000000);
+   (3, VMsg [(1, VStr [49; 46; 53; 48])]); (4, VBytes [251; 255; 254])].
+Definition sc_txt : bytes := Eval vm_compute in
+  match encode inst_fmt rt_inner sc_env [82] sc_msg with Ok t => t | _ => [] end.
+Definition sc_back : msg := Eval vm_compute in
+  match CodecDec.decode_bytes inst_orc sc_env [82] sc_txt with Ok m => m | _ => [] end.
+Example C01_bytes_scalars_example :
+  encode inst_fmt rt_inner sc_env [82] sc_msg = Ok sc_txt /\
+  CodecDec.decode_bytes inst_orc sc_env [82] sc_txt = Ok sc_back /\
+  msg_get 1 sc_back = msg_get 1 sc_msg /\ msg_get 2 sc_back = msg_get 2 sc_msg /\ msg_get 4 sc_back = msg_get 4 sc_msg /\
+  msg_get 3 sc_back = Some (VMsg [(1, VStr [49; 46; 53])]).
+Proof. repeat split; vm_compute; reflexivity. Qed.
